@@ -58,7 +58,7 @@ impl DynamicTypeItem {
                 false => &next_item.downgrade_code[..]
             };
             
-            number = match SmartCalc::basic_execute(code.replace("{value}", &number.to_string()), config) {
+            number = match SmartCalc::basic_execute(code.replace("{value}", &number.to_string()).replace('.', &config.decimal_seperator), config) {
                 Ok(number) => number,
                 Err(_) => return None
             };
@@ -118,7 +118,7 @@ impl DynamicTypeItem {
             false => &type_conversion.to_target_calculation[..]
         };
 
-        let number = match SmartCalc::basic_execute(code.replace("{value}", &number.to_string()), config) {
+        let number = match SmartCalc::basic_execute(code.replace("{value}", &number.to_string()).replace('.', &config.decimal_seperator), config) {
             Ok(number) => number,
             Err(_) => return None
         };
